@@ -666,3 +666,51 @@ Proof.
       * cbn [fst snd]. rewrite repeat_length. split; reflexivity.
       * destruct (Ht i Hi x0) as (_ & Hd & Hz); [rewrite Ex; left; reflexivity|]. split; assumption.
 Qed.
+
+(* ------------------------------------------------------------------ sync_dict *)
+Lemma ins_key_in {X} (y x : string * X) l : In y (ins_key x l) -> y = x \/ In y l.
+Proof.
+  induction l as [|k r IH]; cbn [ins_key]; [intros [<-|[]]; left; reflexivity|].
+  destruct (String.leb (fst x) (fst k)).
+  - intros [<-|H]; [left; reflexivity|right; exact H].
+  - intros [<-|H]; [right; left; reflexivity|]. destruct (IH H) as [->|H']; [left; reflexivity|right; right; exact H'].
+Qed.
+Lemma sort_keys_in {X} (y : string * X) l : In y (sort_keys l) -> In y l.
+Proof.
+  induction l as [|x l IH]; [intros []|]. unfold sort_keys. cbn [fold_right]. intros H.
+  apply ins_key_in in H as [->|H]; [left; reflexivity|right; apply IH, H].
+Qed.
+Lemma combine_fst_snd {X Y} (l : list (X * Y)) : combine (map fst l) (map snd l) = l.
+Proof. induction l as [|[a b] l IH]; [reflexivity|]. cbn [map combine fst snd]. f_equal. exact IH. Qed.
+Lemma map_repeat' {X Y} (f : X -> Y) x n : map f (repeat x n) = repeat (f x) n.
+Proof. induction n as [|n IH]; [reflexivity|]. cbn [repeat map]. f_equal. exact IH. Qed.
+
+Theorem dict_sync_lossless_same_keys g dst Wg (kvs : nat -> list (string * tensor)) (ks : list string) d z :
+  let n := List.length g in
+  n > 0 -> n <= Wg -> dst_ok g dst -> ks <> [] ->
+  (forall i, i < n -> map fst (sort_keys (kvs i)) = ks) ->
+  (forall i, i < n -> forall kt, In kt (kvs i) -> tens_ok d z (snd kt)) ->
+  run_all (respond g) (map (fun i => sync_dict dst i Wg (kvs i)) (seq 0 n))
+  = Some (map (fun i => Ok (if receives dst i
+                            then map (fun j => GD (sort_keys (kvs j))) (seq 0 n) ++ repeat (GD []) (Wg - n)
+                            else untouched Wg)) (seq 0 n)).
+Proof.
+  intros n Hn HW Hok Hks Hkeys Ht. unfold sync_dict. cbv zeta.
+  assert (Hlen : forall i, i < n -> map snd (sort_keys (kvs i)) <> []).
+  { intros i Hi E. apply Hks. rewrite <- (Hkeys i Hi).
+    apply (f_equal (@List.length _)) in E. rewrite map_length in E. cbn in E.
+    apply length_zero_iff_nil. rewrite map_length. exact E. }
+  bindr_with (fun i => sync_list dst i Wg (map snd (sort_keys (kvs i))))
+             (fun i => if receives dst i
+                       then pad_slots Wg (map (fun j => GL (map snd (sort_keys (kvs j)))) (seq 0 n))
+                       else untouched Wg).
+  { apply (list_sync_lossless g dst Wg (fun i => map snd (sort_keys (kvs i))) d z Hn HW Hok).
+    - intros i Hi t Hin. apply in_map_iff in Hin as (kt & <- & Hkt). apply (Ht i Hi), sort_keys_in, Hkt.
+    - exists 0. split; [exact Hn|apply Hlen, Hn].
+    - intros (i & Hi & E). exfalso. exact (Hlen i Hi E). }
+  apply run_all_ret_ext. intros i Hi. apply in_seq in Hi. destruct (receives dst i); [|reflexivity].
+  do 2 f_equal. rewrite pad_slots_seq, map_app, map_map. f_equal.
+  - apply map_ext_in. intros j Hj. apply in_seq in Hj. cbn [glist].
+    rewrite (Hkeys i) by lia. rewrite <- (Hkeys j) by lia. rewrite combine_fst_snd. reflexivity.
+  - rewrite map_repeat'. cbn [glist]. destruct (map fst (sort_keys (kvs i))); reflexivity.
+Qed.
